@@ -54,7 +54,11 @@ CONNECT_RULE = ("random scripts of 1-8 attempts {transport error, cancellation i
                 "others (1xx, 201-226, 204/205 included, 300/304/305, 4xx, 5xx, 299, 999; not 301/302/303/307/308, which concern http.Client's redirect logic); the validator's verdict is "
                 "scripted, so the status is opaque to model and oracle - an accepted response is read and retried whatever its status, Connect never returns nil; the validator is the "
                 "harness's closure or, for scripts without a rejected response, sse.NoopValidator (half of those); plus a sweep: every status x {closure accepting, NoopValidator, closure "
-                "rejecting} x {no body, one event, a cut line}, two more attempts behind. Retry values that are NEAR-NUMERALS (half of the invalid retry fields, and a sweep of ~120 values "
+                "rejecting} x {no body, one event, a cut line}, two more attempts behind. A REJECTED response's body ends at once (an error page) or - one in eight, plus "
+                "one per error character and every fourth status in the sweeps - is a stream the server keeps OPEN (quiet, or quiet after a few bytes): Read blocks until the body is "
+                "closed (then it fails) or the harness gives up; observed per such body: the Read calls made on it before Connect returned and whether Connect was still running "
+                "0.9 s after it got the response (the body is released then, so a Connect that waits for a rejected body is the observation 'stuck', not a hung run); C11's oracle: "
+                "on a validator failure Connect returned at once - not stuck, the verdict returned, no further request. Retry values that are NEAR-NUMERALS (half of the invalid retry fields, and a sweep of ~120 values "
                 "alone / after a valid field): a positive numeral with white space (SP, two SP, TAB, VT, FF, NEL, NBSP, U+2000, U+2028, U+2029, U+3000) before it beyond the one space of "
                 "the field syntax, after it, around it or inside it, with a sign, unit, fraction, exponent, base prefix, digit separator, or in non-ASCII digits - all ignored, the wait stays "
                 "what it was. THE SAME CONNECTION CONNECTED AGAIN (1500 random scenarios quick / 30000 thorough, and a sweep of ~900): Connect returns for a reason other than the context - "
